@@ -1,6 +1,6 @@
 """Tie of Model/TfmGlue.v (C12) to the real library, evaluated on every run of the check.
 
-Correspondence (see .work/prover_C12_TIE.md); the model runs inside coqc by vm_compute at run time:
+Correspondence (see notes/prover_C12_TIE.md); the model runs inside coqc by vm_compute at run time:
 
   unit cases (discrete values exactly, binary64 values bit for bit)
     nd_flatten / shape_size / nd_okb / ndindex / nd_get / ravel   vs  Points.to_1d_points().coords, .size, .numpoints,
@@ -1316,7 +1316,7 @@ def gen_x(arim, rec, rng, wkind):
 
 
 # ---------------------------------------------------------------------------------------------------------------
-# the fixed examples of .work/prover_C12_TIE.md
+# the fixed examples of notes/prover_C12_TIE.md
 # ---------------------------------------------------------------------------------------------------------------
 EX_GRID3 = np.array([[[(0, 0, 4), (0, 0, 0), (8, 0, 0)]], [[(1, 0, 0), (-4, 0, 0), (0, 4, 0)]]], dtype=float)   # shape (2, 1, 3)
 EX_GRID = np.array([(0, 0, 4), (3, 0, 4)], dtype=float)
